@@ -263,4 +263,37 @@ example : exCI.norm ≠ exCI := by
   revert this
   decide +kernel
 
+/-- **The writer refuses conflicting duplicates.** After a successful `serialize`, any two variants of the forest that
+carry the same UID filed exactly the same entry (`Variant UID already exist` otherwise).  This is the model-level content
+of the refusal; that under `WellKeyed` it excludes duplicates altogether (`UidsDistinct`) is argued in
+docs/mutants_C01.md but not proved here, which is why `UidsDistinct` stays an explicit (decidable) hypothesis. -/
+theorem C01_duplicate_uids_agree (ci : ComposeInfo) (j : PyVal) (h : serialize ci = .ok j) :
+    ∀ x ∈ flats (byKeys ci.variants), ∀ y ∈ flats (byKeys ci.variants), x.1 = y.1 → x = y := by
+  unfold serialize at h
+  split at h
+  · cases h
+  · split at h
+    · cases h
+    · split at h
+      · cases h
+      · split at h
+        · cases h
+        · split at h
+          · cases h
+          · rename_i d hV
+            unfold variantsSer at hV
+            split at hV
+            · cases hV
+            · obtain ⟨_, hs, _, hall, _⟩ := sers_spec (byKeys ci.variants) none [] d hV (by simp [FSorted])
+              exact hs.func.mono hall
+
+/-- Why the key convention is a hypothesis: a parent holding the *same* child twice, once under its id and once under its
+UID (only possible by writing into `.variants` directly, never through `add()`), is written without complaint and read
+back with one child. -/
+theorem C01_keyed_by_uid_witness :
+    let kid := fun (key : Str) => Variant.mk key k%"B" k%"P-B" k%"b" k%"variant" [k%"x86_64"] [] none []
+    let ci : ComposeInfo := { exCI with variants := [.mk k%"P" k%"P" k%"P" k%"p" k%"variant" [k%"x86_64"] [] none [kid k%"B", kid k%"P-B"]] }
+    isOk (serialize ci) = true ∧ ¬ WellKeyed ci ∧ ¬ UidsDistinct ci ∧
+      (ci.norm.variants.map fun v => v.kids.length) = [1] := by decide +kernel
+
 end PM
